@@ -101,6 +101,9 @@ func (tm *TopicMetadata) decode(pd packetDecoder, version int16) (err error) {
 	if err != nil {
 		return err
 	}
+	if n < 0 {
+		return errInvalidArrayLength
+	}
 	tm.Partitions = make([]*PartitionMetadata, n)
 	for i := 0; i < n; i++ {
 		tm.Partitions[i] = new(PartitionMetadata)
@@ -164,6 +167,9 @@ func (r *MetadataResponse) decode(pd packetDecoder, version int16) (err error) {
 		return err
 	}
 
+	if n < 0 {
+		return errInvalidArrayLength
+	}
 	r.Brokers = make([]*Broker, n)
 	for i := 0; i < n; i++ {
 		r.Brokers[i] = new(Broker)
@@ -194,6 +200,9 @@ func (r *MetadataResponse) decode(pd packetDecoder, version int16) (err error) {
 		return err
 	}
 
+	if n < 0 {
+		return errInvalidArrayLength
+	}
 	r.Topics = make([]*TopicMetadata, n)
 	for i := 0; i < n; i++ {
 		r.Topics[i] = new(TopicMetadata)
